@@ -153,7 +153,10 @@ CLAIMS = {
  "C18": dict(category="proof", design_ref="DESIGN.md section 5 C18",
    technique="Lean 4: chunked = whole for every chunk size (lists, induction), einsum tables and built-in kernels = model product (AST-translated, ring), backends agree on unit quaternions; differential run across lazy x chunk x backend x dtype x whole/element-wise",
    text="Proved: for every chunk size, chunked evaluation of element-wise maps and of outer products equals whole evaluation "
-        "in values and row-major self.shape + other.shape layout (with the index formula of the outer product); the dask "
+        "in values and row-major self.shape + other.shape layout (with the index formula of the outer product), chunked element-wise "
+        "binary evaluation on equally chunked operands equals whole evaluation, block-wise reduction followed by reduction of the "
+        "partial results equals the whole reduction for every associative operation with identity (the max of a lazy distance "
+        "matrix), and every chunk is non-empty and at most the chunk size; the dask "
         "einsum coefficient tables and the numba fallback kernels are, on every run, AST-translated and proved equal to the "
         "model's Hamilton product / rotation; the numpy-quaternion sandwich product and the built-in kernel agree on unit "
         "quaternions; integer inputs embed by a ring homomorphism. dask scheduling, numpy-quaternion arithmetic and rounding "
